@@ -16,7 +16,7 @@ Definition expected_common : list (string * string) :=
     ("copy_future_exception", "db63554355dd301fa450");
     ("copy_exception", "133e6f2c1ecfc57e21ae");
     ("try_set_result", "820272389ed664dd2067");
-    ("<module>", "767c04d3ddc95e91cb4d") ].
+    ("<module>", "a63684eefebb6510b84d") ].
 
 Definition expected_map : list (string * string) :=
   [ ("identity", "ed5596b8fd9ae35fd71f");
@@ -37,14 +37,14 @@ Definition expected_map : list (string * string) :=
     ("MapExecutor.shutdown", "d45a53c65083205881b3");
     ("MapExecutor.submit", "0cb90b1a042bdeee4543");
     ("<class MapExecutor>", "e50f37e46fe07544015c");
-    ("<module>", "e3b0c44298fc1c149afb") ].
+    ("<module>", "d35b26be89fcc8085afe") ].
 
 Definition expected_flat_map : list (string * string) :=
   [ ("FlatMapFuture.__init__", "8221c78d580d34bceb58");
     ("FlatMapFuture._on_mapped", "dfa823bfa27cb281a80d");
     ("<class FlatMapFuture>", "360367dde34421ff18a5");
     ("<class FlatMapExecutor>", "c783fa76bf275ffb4e76");
-    ("<module>", "e3b0c44298fc1c149afb") ].
+    ("<module>", "69d6cfbefd24206a2475") ].
 
 Definition expected_retry : list (string * string) :=
   [ ("RetryPolicy.should_retry", "4a86813abe3f2b3fed80");
@@ -83,7 +83,7 @@ Definition expected_retry : list (string * string) :=
     ("eval_policy", "9db4898046245420804d");
     ("_submit_loop", "02f53303f28f3c295a30");
     ("_submit_wait", "56b604e8d7c4ec6c8812");
-    ("<module>", "325c7c900c5fefb528e0") ].
+    ("<module>", "218eb320467b1aeae680") ].
 
 Definition expected_poll : list (string * string) :=
   [ ("PollFuture.__init__", "c10af8cc9c9d7b10a663");
@@ -111,7 +111,7 @@ Definition expected_poll : list (string * string) :=
     ("PollExecutor.shutdown", "308756632f3d60964864");
     ("<class PollExecutor>", "80f984318759eb8c373f");
     ("_poll_loop", "87a8ab909a0e9830a302");
-    ("<module>", "325c7c900c5fefb528e0") ].
+    ("<module>", "3d5643723edc1e83aa69") ].
 
 Definition expected_throttle : list (string * string) :=
   [ ("ThrottleFuture.__init__", "96928cc7af25a1eb0e04");
@@ -131,9 +131,9 @@ Definition expected_throttle : list (string * string) :=
     ("ThrottleExecutor._do_cancel", "c3972447a9c998b4f9ce");
     ("ThrottleExecutor._delegate_future_done", "bf1ad2716dbaeb18a0ca");
     ("<class ThrottleExecutor>", "b05bcc274b2349cf84a3");
-    ("_submit_loop_iter", "35896c35c2dd055a4141");
+    ("_submit_loop_iter", "e9b100771269d55f9b99");
     ("_submit_loop", "ae462d660015f4426762");
-    ("<module>", "3d9573e6f995ac82c5de") ].
+    ("<module>", "29db1d088190da07c4d2") ].
 
 Definition expected_timeout : list (string * string) :=
   [ ("TimeoutExecutor.__init__", "774cb2d6ed4e1593783c");
@@ -144,16 +144,16 @@ Definition expected_timeout : list (string * string) :=
     ("TimeoutExecutor._on_future_done", "de82635b92a595835ee9");
     ("TimeoutExecutor._do_cancel", "2969ee050913263f5571");
     ("TimeoutExecutor._job_loop", "70b9e4455c158629bca7");
-    ("TimeoutExecutor._job_loop_iter", "f87f686280f75d2ecc88");
+    ("TimeoutExecutor._job_loop_iter", "464a072d83f50c15576e");
     ("<class TimeoutExecutor>", "50a8ac5e7bccb73e820b");
-    ("<module>", "e87242dc2541d0255fdf") ].
+    ("<module>", "5010d7f6488d47aea02c") ].
 
 Definition expected_cos : list (string * string) :=
   [ ("CancelOnShutdownExecutor.__init__", "1a6a9640bdf78ca65e08");
     ("CancelOnShutdownExecutor.shutdown", "fbfed87b96b5426db91d");
     ("CancelOnShutdownExecutor.submit", "143c001903266b331881");
     ("<class CancelOnShutdownExecutor>", "6da8dc87422175cdb369");
-    ("<module>", "e3b0c44298fc1c149afb") ].
+    ("<module>", "fc08c208268f54f2bb9e") ].
 
 Definition expected_helpers : list (string * string) :=
   [ ("executor_loop", "a0bbb9b8be0e7ce0dc36");
@@ -161,7 +161,7 @@ Definition expected_helpers : list (string * string) :=
     ("ShutdownHelper.ensure_alive", "85d63aa8b9321bec6c58");
     ("ShutdownHelper.__call__", "b89e3b9a466cf66dc7ba");
     ("<class ShutdownHelper>", "03a091b669ebe8d49498");
-    ("<module>", "52a9ae26d413a3e8642e") ].
+    ("<module>", "fb4a0d6acee62846359d") ].
 
 Definition expected_event : list (string * string) :=
   [ ("ShutdownAwareEventHandler.__init__", "e2678ba5f420a02931bb");
@@ -170,7 +170,7 @@ Definition expected_event : list (string * string) :=
     ("ShutdownAwareEventHandler.get_event", "e2bfc080e6b0741071f0");
     ("<class ShutdownAwareEventHandler>", "ad8c7e1c14481833fb0a");
     ("is_shutdown", "2561f0deb5c6147a0594");
-    ("<module>", "eba98a78404d53c1048a") ].
+    ("<module>", "35a1a5761b817cbbfa44") ].
 
 Definition expected_fbool : list (string * string) :=
   [ ("BoolOperation.__init__", "b25d250fd3e6009274b0");
@@ -183,7 +183,7 @@ Definition expected_fbool : list (string * string) :=
     ("AndOperation.get_state_update", "9a67dad16f194cd2ca77");
     ("<class AndOperation>", "c63e9f0bc50abc8684b8");
     ("f_and", "d72ebeef8b44622630a3");
-    ("<module>", "c5ad61c50f69a7988fb1") ].
+    ("<module>", "3c94b49334f37a45c046") ].
 
 Definition expected_fzip : list (string * string) :=
   [ ("maketuple", "9f6d9325dc625bb219a1");
@@ -191,7 +191,7 @@ Definition expected_fzip : list (string * string) :=
     ("Zipper.handle_done", "ea6e7a4714385b56e685");
     ("<class Zipper>", "c7667226a8a6212a6755");
     ("f_zip", "36f44bd018499d957cbf");
-    ("<module>", "240537462413e3de5bd8") ].
+    ("<module>", "ba993e4fcbc6f4da717d") ].
 
 Definition expected_fbase : list (string * string) :=
   [ ("f_return", "5493862c0c0e6d740c2a");
@@ -203,17 +203,17 @@ Definition expected_fbase : list (string * string) :=
     ("chain_cancel", "dd4443d52a52e867aa09");
     ("notify_cancel", "c96e887410cb9ea6b49a");
     ("wrap", "4e8371b0ef36993b1995");
-    ("<module>", "b6e60959e56e4c7642de") ].
+    ("<module>", "ec7e6227b426b04176c4") ].
 
 Definition expected_metrics : list (string * string) :=
   [ ("record_done", "09a3d04dcbb1429f0b7d");
     ("track_future", "cdfd0717ad5a99cdedac");
     ("track_future_noop", "9e2003a9122286e94c33");
-    ("<module>", "4cd5416bfb50d50b09ef") ].
+    ("<module>", "886ac2d04e840d2e4caa") ].
 
 Definition expected_metrics_prom : list (string * string) :=
   [ ("<class PrometheusMetrics>", "5bc13959d3466eb424f9");
-    ("<module>", "84cb6a3b5a3d03593d23") ].
+    ("<module>", "3c7621f0053e19f15edc") ].
 
 Definition expected_fproxy : list (string * string) :=
   [ ("ProxyFuture.__init__", "33057a0b3256356fa717");
@@ -254,46 +254,46 @@ Definition expected_fproxy : list (string * string) :=
     ("ProxyFuture.__nonzero__", "899e52e91e2deb54702d");
     ("<class ProxyFuture>", "40c73a04bc99b8037aa1");
     ("f_proxy", "dfc0fd909ca3da6312de");
-    ("<module>", "e3b0c44298fc1c149afb") ].
+    ("<module>", "e4e9e80a18b978073b89") ].
 
 Definition expected_fnocancel : list (string * string) :=
   [ ("NoCancelFuture.cancel", "d0f7ac8c65614db8907e");
     ("<class NoCancelFuture>", "4cfbec42b991c9734d80");
     ("f_nocancel", "7950aa7c9462e690dec3");
-    ("<module>", "e3b0c44298fc1c149afb") ].
+    ("<module>", "cb3cd9fe8d15668ea9c4") ].
 
 Definition expected_fapply : list (string * string) :=
   [ ("f_apply", "2cb3a7a635e8c356504b");
     ("_wrap_args", "742766d158d272ce4fae");
     ("_wrapped_f_apply", "3c94580ce730d4d8ad08");
-    ("<module>", "f206cb5340f8d42bb65b") ].
+    ("<module>", "f0139b8947559bbbb6c5") ].
 
 Definition expected_fmap : list (string * string) :=
   [ ("f_map", "637d3bdb9e72b1b2cfb2");
     ("f_flat_map", "2f6e56415e8b7271eeb6");
-    ("<module>", "e3b0c44298fc1c149afb") ].
+    ("<module>", "903c3cad0feb45c6c6ca") ].
 
 Definition expected_fsequence : list (string * string) :=
   [ ("f_sequence", "fa3fe0293a3a7201574f");
     ("f_traverse", "5cb6f58faeee5435a80d");
-    ("<module>", "e3b0c44298fc1c149afb") ].
+    ("<module>", "d41034fe9c0dd5213331") ].
 
 Definition expected_ftimeout : list (string * string) :=
   [ ("f_timeout", "09d0c939ff51faf46d16");
     ("timeout_executor", "578bdda3d6b5b52f6eaf");
-    ("<module>", "e322704a7149219757c1") ].
+    ("<module>", "9b9650966ac69ca4bdeb") ].
 
 Definition expected_fcheck : list (string * string) :=
   [ ("ensure_futures", "a8d42a0e4529dea8ed8f");
     ("ensure_future", "3a4d6a3a81c7a6ab5420");
     ("is_future", "284aaf26c4c784957ed8");
-    ("<module>", "e3b0c44298fc1c149afb") ].
+    ("<module>", "ecc0d41bc4339bdfe43c") ].
 
 Definition expected_bind : list (string * string) :=
   [ ("BoundCallable.__init__", "a7ac852ee16e95990910");
     ("BoundCallable.__call__", "497ebd764341e3da3e02");
     ("<class BoundCallable>", "1f040f2d9056c1e4fe40");
-    ("<module>", "e3b0c44298fc1c149afb") ].
+    ("<module>", "f4aa1ef14a46efb325fd") ].
 
 Definition expected_wrap : list (string * string) :=
   [ ("CanBind.bind", "36c2fd2474a22f460e3f");
@@ -319,7 +319,7 @@ Definition expected_wrapped : list (string * string) :=
     ("<class CustomizableThreadPoolExecutor>", "da70a3aa0609c3d90fd4");
     ("CustomizableProcessPoolExecutor.__init__", "c16055b7d1d5940c2276");
     ("<class CustomizableProcessPoolExecutor>", "c9dafe9381a8b4a9345a");
-    ("<module>", "e3b0c44298fc1c149afb") ].
+    ("<module>", "b38edf37be1d9bed1f32") ].
 
 Definition expected_executors : list (string * string) :=
   [ ("Executors.bind", "cf2d0424e49465fa042c");
@@ -337,11 +337,30 @@ Definition expected_executors : list (string * string) :=
     ("Executors.with_cancel_on_shutdown", "e494dce599e8e18ff687");
     ("Executors.with_asyncio", "1a08d50f66427760ce85");
     ("<class Executors>", "3cfc2f6c667310f0f7b4");
-    ("<module>", "e3b0c44298fc1c149afb") ].
+    ("<module>", "cc5adb6bae2d69264cf9") ].
 
 Definition expected_sync : list (string * string) :=
   [ ("SyncExecutor.__init__", "957fe250daf99d701d5d");
     ("SyncExecutor.shutdown", "0a8912b5c3591f3afaf7");
     ("SyncExecutor.submit", "8b3dcd8ce44b32717ac3");
     ("<class SyncExecutor>", "5f9d1eb35976f6ca983d");
+    ("<module>", "8d22d9f25c23487003a7") ].
+
+Definition expected_logwrap : list (string * string) :=
+  [ ("LogWrapper.__init__", "a8dcd5139d863186a3ad");
+    ("LogWrapper.debug", "f088a69640bccb6c2cde");
+    ("<class LogWrapper>", "213a6de1eda0d28b3220");
+    ("<module>", "de2abade832c8e350a1b") ].
+
+Definition expected_metrics_null : list (string * string) :=
+  [ ("NullBase.labels", "41d14c5c13c53b41dc5f");
+    ("NullBase.inc", "55025e5dadaf6d9df7b5");
+    ("<class NullBase>", "94056c49c7a025ac1756");
+    ("<class Counter>", "0324ceee67f8c6109d21");
+    ("Gauge.dec", "ef53a3c54b85b016bbce");
+    ("<class Gauge>", "9d17a576ff0dd36c4558");
+    ("<class NullMetrics>", "13fbbf221cc8e09e4d80");
     ("<module>", "e3b0c44298fc1c149afb") ].
+
+Definition expected_futures_init : list (string * string) :=
+  [ ("<module>", "8d83fc67d5e704754012") ].
